@@ -42,6 +42,7 @@ def configs(tier):
         ("cubic", (2, 2, 2), 2, True),
         ("cubic", (2, 2, 2), 2, False),
         ("hexC3", (3, 3, 1), 2, True),
+        ("hexC3", (3, 3, 1), 3, True),       # odd mesh: the centre child coincides with its (dead) parent
     ]
     for kind, div, mesh, sym in base:
         for fac in (1, 2):
